@@ -467,10 +467,32 @@ def run_stream(stream, cases, driver, model_ok, stats):
     exception while the harness evaluates ONE case is recorded against that case: as a violation when
     it came out of werkzeug, otherwise as a broken correspondence (the harness, validated on the
     unchanged tree, met an observation it cannot interpret) - the failing-input search then decides."""
-    reals = [real_out(stream, c) for c in cases]
+    reals, hangs = [], []
+    for i, c in enumerate(cases):
+        r = real_out(stream, c)
+        reals.append(r)
+        if r == "EXC:HangTimeout":
+            hangs.append(i)
+            if len(hangs) >= 3:  # circuit breaker: do not spend the per-case limit thousands of times
+                break
+    cases = cases[: len(reals)]
     lines, idx = [], []
     violations, disagreements = [], []
     bad = set()
+    for i in hangs[:1]:
+        # a hang is confirmed once with twice the time limit before it is reported (machine load)
+        global CASE_TIMEOUT_S
+        CASE_TIMEOUT_S, keep = 2 * CASE_TIMEOUT_S, CASE_TIMEOUT_S
+        try:
+            again = real_out(stream, cases[i])
+        finally:
+            CASE_TIMEOUT_S = keep
+        if again == "EXC:HangTimeout":
+            what = f"the implementation did not return within {2 * keep:.0f} s on this case (no property can hold of a call that does not terminate)"
+            violations.append(Violation(stream.name, cases[i], what, None))
+            bad.update(hangs)
+        else:
+            reals[i] = again
 
     def harness_failed(i, e, doing):
         bad.add(i)
@@ -486,6 +508,7 @@ def run_stream(stream, cases, driver, model_ok, stats):
         else:
             disagreements.append({"stream": stream.name, "case": cases[i], "real": reals[i], "model": f"<the harness could not evaluate this case while {doing}: {type(e).__name__}: {str(e)[:200]}>"})
 
+    ml_hangs = 0
     if model_ok:
         for i, c in enumerate(cases):
             try:
@@ -494,6 +517,10 @@ def run_stream(stream, cases, driver, model_ok, stats):
             except (Exception, HangTimeout) as e:  # noqa: BLE001
                 harness_failed(i, e, "the harness prepared the model's input")
                 ml = None
+                if isinstance(e, HangTimeout):
+                    ml_hangs += 1
+                    if ml_hangs >= 3:
+                        break
             if ml is not None:
                 lines.append(ml)
                 idx.append(i)
@@ -506,6 +533,7 @@ def run_stream(stream, cases, driver, model_ok, stats):
             except Exception as e:  # noqa: BLE001
                 harness_failed(i, e, "the harness canonicalised the model's answer")
     seen = stats.setdefault("seen", set())
+    oracle_hangs = 0
     for i, c in enumerate(cases):
         r = reals[i]
         stats["evaluations"] = stats.get("evaluations", 0) + 1
@@ -525,7 +553,12 @@ def run_stream(stream, cases, driver, model_ok, stats):
                     stats["distinct_nontrivial"] = stats.get("distinct_nontrivial", 0) + 1
             what = eval_oracle(stream, c, r)
             if what is not None:
-                violations.append(Violation(stream.name, c, what, stream.finding_key(c, what)))
+                hung = what.startswith("the implementation did not return within")
+                violations.append(Violation(stream.name, c, what, None if hung else stream.finding_key(c, what)))
+                if hung:
+                    oracle_hangs += 1
+                    if oracle_hangs >= 3:  # circuit breaker (see above)
+                        break
         except Exception as e:  # noqa: BLE001
             harness_failed(i, e, "the harness evaluated the property oracle")
             continue
@@ -614,11 +647,15 @@ def main(check: Check, argv):
             if not k:
                 samples.extend({"stream": st.name, "case": c} for c in cases[:2] + cases[-1:])
             log(f"stream {st.name}{f' (round {k})' if k else ''}: cases={len(cases)} model_compared={stats.get('model_compared',0)} disagreements={len(d)} oracle_violations={len(v)} ({round(time.time() - ts, 2)}s)")
+            if any(x.what.startswith("the implementation did not return within") for x in v):
+                log("a call that does not terminate was confirmed: the remaining streams are skipped")
+                return 1
         return 0
 
-    if run_round(0) == 2:
+    rr = run_round(0)
+    if rr == 2:
         return 2
-    if args.tier == "thorough":
+    if args.tier == "thorough" and rr == 0:
         # keep exploring with derived seeds until the time budget of the thorough tier is used or
         # something was found (VERIF_THOROUGH_SECONDS, default 420 s for the stream part)
         limit = float(os.environ.get("VERIF_THOROUGH_SECONDS", "420"))
